@@ -22,7 +22,7 @@ type c16cCase struct {
 	Workers   [][]Sample `json:"workers"`
 	Sets      []int      `json:"sets,omitempty"` // settable limit: values set by an extra goroutine
 	Order     []int      `json:"order"`
-	Yields    []uint8    `json:"yields"`
+	Yields    yieldList  `json:"yields"`
 }
 
 func genC16C(t *rapid.T) c16cCase {
@@ -37,7 +37,7 @@ func genC16C(t *rapid.T) c16cCase {
 		c.Sets = rapid.SliceOfN(rapid.IntRange(0, 50), 1, 20).Draw(t, "sets")
 	}
 	c.Order = rapid.Permutation(seq(nw)).Draw(t, "order")
-	c.Yields = rapid.SliceOfN(rapid.SampledFrom([]uint8{0, 0, 1, 1, 2, 3, 6}), 0, 120).Draw(t, "yields")
+	c.Yields = yieldList(rapid.SliceOfN(rapid.SampledFrom([]uint8{0, 0, 1, 1, 2, 3, 6}), 0, 120).Draw(t, "yields"))
 	return c
 }
 
